@@ -669,6 +669,10 @@ class NetworkXPropertyGraph(ABCPropertyGraph, NetworkXMixin):
 
         # merge the nodes in situ
         nx.contracted_nodes(self.storage.get_graph(self.graph_id), real_node, real_other_node, copy=False)
+        # when both nodes were linked to the same neighbor contracted_nodes records the duplicate edge
+        # in a 'contraction' attribute of the surviving edge - this bookkeeping is not part of the model
+        for _, _, edge_props in self.storage.get_graph(self.graph_id).edges(real_node, data=True):
+            edge_props.pop('contraction', None)
 
         # deal with properties
         # remove all properties, including 'contracted' new property
